@@ -41,6 +41,9 @@ THEOREMS = [
     'Px.Static.C13_content', 'Px.Static.C13_fs_outside_irrelevant', 'Px.Static.C13_disabled_404',
     'Px.Static.C13_normpath_abs_clean', 'Px.Static.C13_normpath_idem_abs', 'Px.Static.C13_resolve_eq_normpath',
     'Px.Static.C13_escape_404_request', 'Px.Static.C13_relative_root_not_confined',
+    'Px.Static.C13_nonutf8_rejected', 'Px.Static.C13_bytes_confined', 'Px.Static.C13_nul_not_served',
+    'Px.Static.C13_bytes_served', 'Px.Static.C13_bytes_answered', 'Px.Static.C13_overlong_rejected',
+    'Px.Static.C13_no_smuggling',
 ]
 EXH_NP = {'quick': 6, 'thorough': 11}
 EXH_PLUG = {'quick': 5, 'thorough': 9}
